@@ -262,8 +262,12 @@ func LoadPackage(dir string) (*PackageInfo, error) {
 
 	for i, vdir := range vdirs {
 		if vdir == dir {
-			// The main package has a version label
-			packageInfo.Versions[i].Package = packageInfo
+			// The main package has a version label. Reference a copy without its
+			// versions rather than packageInfo itself, so that the package graph
+			// stays acyclic for code that walks it recursively.
+			self := *packageInfo
+			self.Versions = nil
+			packageInfo.Versions[i].Package = &self
 			continue
 		}
 
